@@ -58,7 +58,7 @@ def valid_values(cls, n, tier="quick"):
     if cls == "bool":
         return [0, 1]
     if cls == "k":
-        return list(range(n + 3)) + [63]
+        return list(range(n + 3)) + [63, 64, 65, (1 << 64) - 1]      # counts beyond the shift width are valid (never reached: constant)
     if cls == "cv":
         return ["sym"]
     if cls == "str":
